@@ -18,6 +18,7 @@ import (
 	"fmt"
 	"io"
 	"net"
+	"strings"
 	"sync"
 	"testing"
 	"time"
@@ -335,6 +336,278 @@ func TestMuxEstablisher(t *testing.T) {
 		out.Begin(name, c)
 		viol, counts, inc, sample := establisher(c, rec.Mix(rec.Seed(), name))
 		l := rec.Line{Case: name, Viol: dedupe(viol), Counts: counts, Class: fmt.Sprint(c.N, c.Phases), Sample: sample}
+		if inc != "" && len(viol) == 0 {
+			l.Verdict, l.Why = rec.Inconclusive, inc
+		}
+		out.End(l)
+	}
+}
+
+// ---------------------------------------------------------------------------------------------------------
+// C10, receiver role over real TCP: the real GRPCMuxManager configured as mux server listens; harness peers
+// dial MORE connections than the configured count, keep them, kill them, and the lifetime is cancelled with
+// peers queued. Observed from the peers alone: a peer's session is "in" once its own yamux ping is answered.
+
+type rcvCase struct {
+	N      int      `json:"n"`
+	Phases []string `json:"phases"` // dial:<k> | wait-full | kill-in:<k> | kill-queued:<k> | cancel | sleep:<ms>
+}
+
+type rcvPeer struct {
+	id     int
+	raw    net.Conn
+	sess   *yamux.Session
+	in     chan struct{} // closed once a ping was answered
+	closed chan struct{} // closed once the session ended
+	killed bool
+}
+
+func receiver(c rcvCase, seed int64) (viol []rec.Violation, counts map[string]int64, inconclusive string, sample any) {
+	counts = map[string]int64{}
+	v := func(sig, f string, a ...any) {
+		viol = append(viol, rec.Violation{Prop: "C10", Sig: "receiver:" + sig, What: fmt.Sprintf(f, a...), Witness: c})
+	}
+	mux.MuxManagerStartDelay = 0
+	addr := freeAddr()
+	life, cancel := context.WithCancel(context.Background())
+	defer cancel()
+	probe := fakes.NewProbe(seed)
+	lst := &noopListener{}
+	cd := config.ClusterDefinition{ConnectionType: config.ConnTypeMuxServer, MuxCount: c.N, MuxAddressInfo: config.TCPTLSInfo{ConnectionString: addr}}
+	mgr, err := mux.NewGRPCMuxManager(life, "verif-rcv", cd, lst, grpc.NewServer(), probe)
+	if err != nil {
+		return nil, counts, "NewGRPCMuxManager: " + err.Error(), nil
+	}
+	mgr.Start()
+	var mu sync.Mutex
+	var peers []*rcvPeer
+	var trace []string
+	dial := func() *rcvPeer {
+		raw, err := net.DialTimeout("tcp", addr, 2*time.Second)
+		if err != nil {
+			return nil
+		}
+		yc := yamux.DefaultConfig()
+		yc.LogOutput = io.Discard
+		yc.EnableKeepAlive = false
+		yc.ConnectionWriteTimeout = 120 * time.Second // a queued peer's ping waits until the proxy takes the connection
+		s, err := yamux.Client(raw, yc)
+		if err != nil {
+			raw.Close()
+			return nil
+		}
+		mu.Lock()
+		p := &rcvPeer{id: len(peers), raw: raw, sess: s, in: make(chan struct{}), closed: make(chan struct{})}
+		peers = append(peers, p)
+		mu.Unlock()
+		go func() {
+			if _, err := s.Ping(); err == nil {
+				close(p.in)
+			}
+		}()
+		go func() { <-s.CloseChan(); close(p.closed) }()
+		go func() {
+			for {
+				st, err := s.Accept()
+				if err != nil {
+					return
+				}
+				_ = st.Close()
+			}
+		}()
+		return p
+	}
+	isIn := func(p *rcvPeer) bool {
+		select {
+		case <-p.closed:
+			return false
+		default:
+		}
+		select {
+		case <-p.in:
+			return true
+		default:
+			return false
+		}
+	}
+	isQueued := func(p *rcvPeer) bool {
+		select {
+		case <-p.closed:
+			return false
+		case <-p.in:
+			return false
+		default:
+			return true
+		}
+	}
+	sel := func(f func(*rcvPeer) bool) []*rcvPeer {
+		mu.Lock()
+		defer mu.Unlock()
+		var out []*rcvPeer
+		for _, p := range peers {
+			if f(p) {
+				out = append(out, p)
+			}
+		}
+		return out
+	}
+	maxIn := 0
+	stopMon := make(chan struct{})
+	var monWG sync.WaitGroup
+	monWG.Add(1)
+	go func() { // limit monitor: sessions the proxy talks to at once, and sessions it lists
+		defer monWG.Done()
+		for {
+			select {
+			case <-stopMon:
+				return
+			default:
+			}
+			n := len(sel(isIn))
+			if r := len(mgr.GetMuxConnections()); r > n {
+				n = r
+			}
+			mu.Lock()
+			if n > maxIn {
+				maxIn = n
+			}
+			mu.Unlock()
+			time.Sleep(2 * time.Millisecond)
+		}
+	}()
+	cancelled := false
+	var cancelledAt time.Time
+	for _, ph := range c.Phases {
+		var k int
+		switch {
+		case strings.HasPrefix(ph, "dial:"):
+			fmt.Sscanf(ph[5:], "%d", &k)
+			for i := 0; i < k; i++ {
+				if dial() != nil {
+					counts["connections_dialled"]++
+				}
+			}
+		case ph == "wait-full":
+			want := c.N
+			mu.Lock()
+			alive := 0
+			for _, p := range peers {
+				if !p.killed {
+					alive++
+				}
+			}
+			mu.Unlock()
+			if alive < want {
+				want = alive
+			}
+			counts["full_strength_waits"]++
+			if !waitUntil(30*time.Second, func() bool { return len(sel(isIn)) == want && len(mgr.GetMuxConnections()) == want }) {
+				v("pool-not-refilled", "%d peers are connected and waiting but only %d are being served and %d sessions are registered after 30 s (configured count %d)", alive, len(sel(isIn)), len(mgr.GetMuxConnections()), c.N)
+			} else {
+				counts["full_strength_reached"]++
+			}
+		case strings.HasPrefix(ph, "kill-in:"), strings.HasPrefix(ph, "kill-queued:"):
+			fmt.Sscanf(ph[strings.Index(ph, ":")+1:], "%d", &k)
+			f := isIn
+			if strings.HasPrefix(ph, "kill-queued:") {
+				f = isQueued
+			}
+			for i, p := range sel(f) {
+				if i >= k {
+					break
+				}
+				mu.Lock()
+				p.killed = true
+				mu.Unlock()
+				_ = p.sess.Close()
+				_ = p.raw.Close()
+				counts["sessions_killed_by_peer"]++
+			}
+		case ph == "cancel":
+			cancel()
+			cancelled, cancelledAt = true, time.Now()
+		case strings.HasPrefix(ph, "sleep:"):
+			fmt.Sscanf(ph[6:], "%d", &k)
+			time.Sleep(time.Duration(k) * time.Millisecond)
+		}
+		trace = append(trace, fmt.Sprintf("%s -> in=%d queued=%d registered=%d", ph, len(sel(isIn)), len(sel(isQueued)), len(mgr.GetMuxConnections())))
+	}
+	if !cancelled {
+		cancel()
+		cancelledAt = time.Now()
+	}
+	// shutdown: every served session ends, the manager reports closed, the port stops accepting
+	if !waitUntil(15*time.Second, func() bool { return len(sel(isIn)) == 0 }) {
+		v("session-open-after-shutdown", "%d sessions are still served 15 s after the manager's lifetime ended", len(sel(isIn)))
+	} else {
+		counts["all_sessions_closed_after_shutdown"]++
+	}
+	select {
+	case <-mgr.CloseChan():
+		counts["shutdown_completed"]++
+		counts["shutdown_ms_max"] = max(counts["shutdown_ms_max"], time.Since(cancelledAt).Milliseconds())
+	case <-time.After(30 * time.Second):
+		v("shutdown-never-completes", "the manager did not report closed (CloseChan) within 30 s after its lifetime ended")
+	}
+	// a peer that dials now must not get a session (the listener is closed: refused, or never served)
+	late := dial()
+	if late != nil {
+		select {
+		case <-late.in:
+			v("serves-after-shutdown", "a connection dialled after the manager reported closed was served (its ping was answered)")
+		case <-late.closed:
+			counts["late_dial_not_served"]++
+		case <-time.After(3 * time.Second):
+			counts["late_dial_not_served"]++
+		}
+		_ = late.raw.Close()
+	} else {
+		counts["late_dial_refused"]++
+	}
+	close(stopMon)
+	monWG.Wait()
+	if len(mgr.GetMuxConnections()) != 0 {
+		v("registered-after-shutdown", "%d sessions still registered after shutdown", len(mgr.GetMuxConnections()))
+	}
+	mu.Lock()
+	if maxIn > c.N {
+		v("pool-above-limit", "%d sessions were served / registered at once, the configured count is %d", maxIn, c.N)
+	}
+	counts["max_served_at_once"] = max(counts["max_served_at_once"], int64(maxIn))
+	for _, p := range peers {
+		_ = p.raw.Close()
+	}
+	mu.Unlock()
+	sample = map[string]any{"case": c, "trace": trace}
+	return
+}
+
+func TestMuxReceiver(t *testing.T) {
+	out := rec.Default()
+	cases := []rcvCase{
+		{1, []string{"dial:3", "wait-full", "sleep:300", "kill-in:1", "wait-full", "kill-in:1", "wait-full", "cancel"}},
+		{2, []string{"dial:5", "wait-full", "sleep:200", "kill-in:2", "wait-full", "kill-queued:1", "kill-in:1", "wait-full", "cancel"}},
+		{3, []string{"dial:2", "wait-full", "dial:4", "wait-full", "sleep:200", "cancel"}},
+		{2, []string{"cancel"}},
+		{2, []string{"dial:6", "sleep:20", "cancel"}},
+		{3, []string{"dial:3", "wait-full", "kill-in:3", "dial:3", "wait-full", "kill-in:1", "dial:2", "wait-full", "cancel"}},
+	}
+	if rec.Thorough() {
+		for n := 1; n <= 4; n++ {
+			for extra := 0; extra <= 3; extra++ {
+				cases = append(cases, rcvCase{n, []string{fmt.Sprintf("dial:%d", n+extra), "wait-full", "sleep:100", fmt.Sprintf("kill-in:%d", n), "wait-full", "cancel"}},
+					rcvCase{n, []string{fmt.Sprintf("dial:%d", n+extra), fmt.Sprintf("sleep:%d", 5+30*extra), "cancel"}})
+			}
+		}
+	}
+	for idx, c := range cases {
+		name := fmt.Sprintf("receiver/%d", idx)
+		if !rec.Want(idx+4, name) {
+			continue
+		}
+		out.Begin(name, c)
+		viol, counts, inc, sample := receiver(c, rec.Mix(rec.Seed(), name))
+		l := rec.Line{Case: name, Viol: dedupe(viol), Counts: counts, Class: fmt.Sprint("rcv", c.N, c.Phases), Sample: sample}
 		if inc != "" && len(viol) == 0 {
 			l.Verdict, l.Why = rec.Inconclusive, inc
 		}
